@@ -4,7 +4,7 @@
    Scope: everything AFTER the third-party wire decoders (jx, protobuf, pprof, snappy, gzip, multipart):
    those are exercised by the harness, their accept/reject bit is an input of the model. *)
 From Coq Require Import List String ZArith NArith Bool Permutation.
-From Qryn Require Import model.IngestRobust proofs.IngestRobustProofs model.IngestPipe proofs.IngestPipeProofs model.IngestFraming proofs.IngestFramingProofs model.IngestShared proofs.IngestSharedProofs model.IngestConn proofs.IngestConnProofs gen.GenGoroutinesWriter.
+From Qryn Require Import model.IngestRobust proofs.IngestRobustProofs model.IngestPipe proofs.IngestPipeProofs model.IngestFraming proofs.IngestFramingProofs model.IngestShared proofs.IngestSharedProofs model.IngestConn proofs.IngestConnProofs model.IngestHanded proofs.IngestHandedProofs gen.GenGoroutinesWriter.
 Import ListNotations.
 
 (* ---- goroutines -------------------------------------------------------------------------- *)
@@ -1130,3 +1130,18 @@ Theorem swap_before_connect_refuted :
   cs_lost st = [1%N] /\ accounted st 1%N = false /\ fetch_loop_ok fli_swapped = false.
 Proof. exact swap_before_connect_drops_promises. Qed.
 Print Assumptions swap_before_connect_refuted.
+
+(* ---- round 7: what a route is handed behind WithOverallContextMiddleware (model/IngestHanded.v) ---- *)
+
+(* whatever Content-Encoding the request names and whatever its body decodes to, the bytes a route reads from r.Body
+   (io.Copy over the limiter) are at most min(decoded size, payload limit) *)
+Theorem the_route_is_handed_at_most_the_payload_limit : forall limit decoded, (0 <= limit)%Z -> (0 <= decoded)%Z ->
+  (handed_model limit decoded <= Z.min decoded limit)%Z.
+Proof. exact handed_model_bounded. Qed.
+Print Assumptions the_route_is_handed_at_most_the_payload_limit.
+
+(* an observation of the real middleware that the model reproduces satisfies the oracle "handed <= limit" *)
+Theorem handed_observation_agreeing_with_the_model_is_within_the_limit : forall c, (0 <= hc_limit c)%Z -> (0 <= hc_decoded c)%Z ->
+  hand_mismatch c = false -> hand_spec_ok c = true.
+Proof. exact hand_agreement_implies_spec. Qed.
+Print Assumptions handed_observation_agreeing_with_the_model_is_within_the_limit.
